@@ -582,20 +582,24 @@ func c01FirstSamplesRace(c *mon.Ctx, r *mon.Rand) {
 	const rounds = 40
 	for k := 0; k < rounds; k++ {
 		h := root.Histogram(fmt.Sprintf("fh%d", k), tally.ValueBuckets{10})
+		// and one with four buckets whose very first samples, one per goroutine,
+		// go to different buckets at the same moment
+		h4 := root.Histogram(fmt.Sprintf("fq%d", k), tally.ValueBuckets{10, 20, 30})
 		ctr := root.Counter(fmt.Sprintf("fc%d", k))
 		var wg sync.WaitGroup
 		var ready int32
 		for g := 0; g < G; g++ {
 			wg.Add(1)
-			go func() {
+			go func(g int) {
 				defer wg.Done()
 				atomic.AddInt32(&ready, 1)
 				for atomic.LoadInt32(&ready) < int32(G) {
 					runtime.Gosched()
 				}
 				h.RecordValue(1)
+				h4.RecordValue(float64(5 + 10*(g%4)))
 				ctr.Inc(1)
-			}()
+			}(g)
 		}
 		wg.Wait()
 	}
@@ -644,6 +648,12 @@ func c01FirstSamplesRace(c *mon.Ctx, r *mon.Rand) {
 	}
 	c.Event("first-request-races", obtainRounds)
 	for k := 0; k < rounds; k++ {
+		for b, p := range mon.RefPairsV([]float64{10, 20, 30}) {
+			want := int64((G - b + 3) / 4)
+			if a := agg[mon.BucketKeyV(fmt.Sprintf("fq%d", k), nil, p.Lo, p.Hi)]; a.Sum != want {
+				c.Violation("conservation-first-use", map[string]interface{}{"why": fmt.Sprintf("histogram fq%d bucket %d: %d samples delivered, %d of the %d goroutines recorded their first sample there at the same moment as the others recorded theirs in other buckets", k, b, a.Sum, want, G), "cached": cached})
+			}
+		}
 		if a := agg[mon.BucketKeyV(fmt.Sprintf("fh%d", k), nil, -math.MaxFloat64, 10)]; a.Sum != int64(G) {
 			c.Violation("conservation-first-use", map[string]interface{}{"why": fmt.Sprintf("histogram fh%d: %d samples delivered, %d goroutines recorded the first samples of its bucket at the same moment", k, a.Sum, G), "cached": cached})
 		}
